@@ -87,7 +87,10 @@ def render(i, macro, kinds):
     # the Ok input value: distinct numbers per component
     vals = []
     for j, t in enumerate(types):
-        vals.append("(%d, %d)" % (1000 + 10 * j, 1001 + 10 * j) if t.startswith("(") else str(1000 + 10 * j))
+        if t.startswith("&"):
+            vals.append("&[%du8, 2, 3, 4]" % (j + 1))
+        else:
+            vals.append("(%d, %d)" % (1000 + 10 * j, 1001 + 10 * j) if t.startswith("(") else str(1000 + 10 * j))
     if tuple_payload:
         okv = "(%s%s)" % (", ".join(vals), "," if n == 1 else "")
     else:
@@ -104,7 +107,7 @@ def programs(seed, tier):
     for macro in ("try_rebind", "rebind_if_ok"):
         for n in (1, 2, 3):
             for kinds in itertools.product(KINDS, repeat=n):
-                if n == 3 and tier == "quick" and rng.random() > 0.2:
+                if n == 3 and tier == "quick" and rng.random() > 0.12:
                     continue
                 out.append((macro, list(kinds)))
         for n in (4, 5, 6):
